@@ -22,6 +22,7 @@ Additions for `Sched3Set` (flows + `cylc set`), on top of the format described a
   G    : per task "exec_retry_long" / "sub_retry_long": the retry delays are not zero
   op   : "prerequisites" may contain "xtrigger/<label>[:succeeded]" and "xtrigger/all"
   observation key added: "xtr": [[p,name,label,satisfied]..] the xtriggers of the pooled proxies
+  observation key added: "suip": [[p,name,[[[p,name,msg,sat]..]..]]..] the suicide prerequisites of the pooled proxies
   observation keys added: "fw": [[p,name]..] pooled proxies with flow_wait; "flow_counter"; "flows_known";
          "ts": committed rows of task_states ⋈ task_outputs [p,name,flows,status,submit_num,flow_wait,[[trigger,forced]..]]
          (null once the scheduler has stopped)
@@ -290,6 +291,11 @@ def obsJson (g : Graph) (s : State) : Json :=
         Json.arr #[jOfInt e.1, Json.str e.2.1, Json.str e.2.2.1, Json.bool e.2.2.2])
       ((sortBy proxyLt s.pool).flatMap fun x => (sortBy (fun (a b : String × Bool) => a.1 < b.1) x.xLabels).map fun l =>
         (x.pt, x.name, l.1, l.2))),
+    ("suip", jOfList (fun (x : Proxy) =>
+        Json.arr #[jOfInt x.pt, Json.str x.name,
+          Json.arr ((sortBy (· < ·) ((x.sui.map preJson).map (·.compress))).map
+            (fun s => (Json.parse s).toOption.getD Json.null)).toArray])
+      ((sortBy proxyLt s.pool).filter fun x => !x.sui.isEmpty)),
     ("flow_counter", jOfNat s.flowCounter),
     ("flows_known", jOfList jOfNat s.flowsKnown),
     ("ts", if s.stop.isSome then Json.null else jOfList (rowJson g) (sortBy rowLt s.rows)),
